@@ -207,7 +207,7 @@ def parse_cbmc(out):
 
 def run_query(q, logdir):
     """bounds are derived (props/fsmlib.bounds) and CHECKED: when an unwinding assertion fails, the bound of exactly that
-    loop is raised (to the default bound, then doubled) and the query is re-run, at most 3 times; the bounds finally
+    loop is raised (to the default bound, then doubled) and the query is re-run, at most 6 times; the bounds finally
     used are reported in the evidence.  A loop that still fails is a machinery fault (BROKEN), never a verdict."""
     os.makedirs(logdir, exist_ok=True)
     t0 = time.time()
@@ -216,10 +216,10 @@ def run_query(q, logdir):
     except Exception as e:
         return dict(name=q.name, status='error', error=repr(e), wall_s=0)
     raised = []
-    for attempt in range(4):
+    for attempt in range(7):
         r = _run_query_once(q, logdir, uws, t0)
         uf = [pid for pid, d in r.get('failed', []) if 'unwinding assertion' in d] if r.get('status') == 'fails' else []
-        if not uf or attempt == 3: break
+        if not uf or attempt == 6: break
         cur = {u.rsplit(':', 1)[0]: int(u.rsplit(':', 1)[1]) for u in uws}
         for pid in uf:
             m = re.match(r'(.*)\.unwind\.(\d+)$', pid)
